@@ -407,6 +407,22 @@ func c36Run(t *testing.T, ci any, trace bool) *verifsim.Result {
 		})
 
 		// ---- peers ----
+		// highest number of tasks (waiting or taken) a peer's queue held while one of
+		// its messages was being processed, sampled at every scheduling step
+		inCall := map[int]bool{}
+		maxTasks := map[int]int{}
+		s.OnStep(func() {
+			for pi, on := range inCall {
+				if !on {
+					continue
+				}
+				if tp := e.peerRequestQueue.PeerTopics(peers[pi]); tp != nil {
+					if n := len(tp.Pending) + len(tp.Active); n > maxTasks[pi] {
+						maxTasks[pi] = n
+					}
+				}
+			}
+		})
 		for pi, msgs := range c.Peers {
 			pi, msgs := pi, msgs
 			s.Go(fmt.Sprintf("peer%d", pi), func() {
@@ -488,13 +504,21 @@ func c36Run(t *testing.T, ci any, trace bool) *verifsim.Result {
 					}
 					storeSeqBefore := s.Seq()
 					s.Logf("peer %d msg#%d full=%v %s", pi, mi, m.Full, c36Describe(msg, index))
+					inCall[pi], maxTasks[pi] = true, 0
 					if e.MessageReceived(ctx, peers[pi], msg) {
 						s.Failf("connection-killed", "MessageReceived asked to close the connection of peer %d for a well-formed message", pi)
 						return
 					}
+					inCall[pi] = false
 					storeSeqAfter := s.Seq()
-					// tasks pushed by NotifyNewBlocks while the call was in progress count too
-					if tp := e.peerRequestQueue.PeerTopics(peers[pi]); tp != nil && len(tp.Pending)+len(tp.Active)+npush > c.Limit && !pressure {
+					// tasks pushed by NotifyNewBlocks while the call was in progress count too:
+					// after the call, and at their highest while it ran (a task that was taken
+					// and finished during the call still shortened what this call could push)
+					during := maxTasks[pi]
+					if tp := e.peerRequestQueue.PeerTopics(peers[pi]); tp != nil && len(tp.Pending)+len(tp.Active) > during {
+						during = len(tp.Pending) + len(tp.Active)
+					}
+					if during+npush > c.Limit && !pressure {
 						s.Probe("task-queue-at-limit")
 						for b, en := range effective {
 							if !en.Cancel {
